@@ -19,14 +19,22 @@ CHECK = {
                   "connection), the coordinator (registration answer, phase-two requests of a transaction manager that "
                   "commits only what returned nil) and the client protocol register -> XA START -> statements -> XA END -> "
                   "XA PREPARE -> return, failure => XA END?/XA ROLLBACK + error, phase two XA COMMIT|ROLLBACK from the "
-                  "holding or a fresh connection. TLC checks the design with the protocol-abiding client (LegalSequence, "
+                  "holding or a fresh connection; the coordinator may also ask for the rollback while phase one is still "
+                  "running (action P2Early: between the granted registration and the return of the call), which the client "
+                  "may answer 'try again' but never untruthfully. TLC checks the design with the protocol-abiding client (LegalSequence, "
                   "RegisterBeforeStart, OneIdentifier, NoCommitAfterFailure, ErrorSurfaces, RolledBackOnFailure, "
-                  "PhaseOneComplete, PoolClean, ExactlyOneOutcome, NothingEarly; identifier function injective on a small "
+                  "PhaseOneComplete, PoolClean, ExactlyOneOutcome, NothingEarly, RolledBackStays: a branch reported as "
+                  "rolled back is never active/idle/prepared again and the database accepts no further command of the "
+                  "application for it; identifier function injective on a small "
                   "domain with '-' and digits in the xid) and enumerates the environment: statement kind x autocommit/"
                   "explicit x registration {grant, refusal, transport error} x database fault at client statement 1..8 x "
                   "decision {commit, rollback} x delivery {once, duplicate, faulted then retried, after a simulated "
                   "process restart (server drops all connections, second sql.DB), on another live resource} x server "
-                  "version {8.0.28 attached, 8.0.30 detached} x fresh/reused pooled connection. Each scenario is replayed "
+                  "version {8.0.28 attached, 8.0.30 detached} x fresh/reused pooled connection; a second set (200 scenarios) "
+                  "has the coordinator's rollback arrive while XA START | the business statement | XA END | XA PREPARE of "
+                  "the branch is in flight at the database (delivered from memsql's statement gate, reply awaited, then the "
+                  "statement proceeds) x mode x version x {write, read} x fault at that or a later statement x retries "
+                  "afterwards {once, faulted then retried, after a restart} x fresh/reused connection. Each scenario is replayed "
                   "through the real XA proxy driver over memsql with seeded random xids (incl. '-', long, quote) and "
                   "branch ids up to 2^63-1; the XA journal of the physical connections, the coordinator log, the value "
                   "returned to the caller, the phase-two replies and the prepared/open/durable state after each phase are "
@@ -38,7 +46,8 @@ CHECK = {
                   "no effect), the coordinator stand-in, the shared counter. The resource manager's wall-clock checker that "
                   "force-closes held connections is switched off (xa_two_phase_hold_time = max) for determinism; it is "
                   "reported separately. Bounds: one branch, one business statement, one fault in phase one and one in "
-                  "phase two, <= 2 deliveries.",
+                  "phase two, <= 2 deliveries (<= 3 in the early set: one during phase one, up to two afterwards). The early "
+                  "rollback arrives before a statement executes (gate), never between its execution and its reply.",
     "technique": "TLA+ spec + TLC design check; TLC-enumerated fault/delivery scenarios replayed on the real XA proxy "
                  "driver and resource manager over an in-memory MySQL with an XA state machine; TLC trace validation of "
                  "the merged journal with named invariants; seeded random identifier data through the exported builders",
@@ -52,6 +61,13 @@ CHECK = {
     }, {
         "name": "xab-slow", "driver": "xab", "env": {"XAB_SLOW": "1"},
         "gen": [("XABranch_Gen", "XABranch_GenSlow.cfg")],
+        "trace": ("XABranch_Trace", "XABranch_Trace.cfg"),
+        "shards": 8,
+    }, {
+        # the coordinator's rollback overtakes phase one (XABranch!P2Early): BranchRollback is delivered from memsql's
+        # statement gate while XA START | the business statement | XA END | XA PREPARE of the branch is in flight
+        "name": "xab-early", "driver": "xab",
+        "gen": [("XABranch_Gen", "XABranch_GenEarly.cfg")],
         "trace": ("XABranch_Trace", "XABranch_Trace.cfg"),
         "shards": 8,
     }, {
